@@ -250,3 +250,156 @@ Theorem C10_canonical_text_decodes_to_its_value :
            to_iface t = Some (JcsProofs.cnorm v).
 Proof. exact decode_canonical_text. Qed.
 Print Assumptions C10_canonical_text_decodes_to_its_value.
+
+From SV Require Import Base.Bytes Hash.B64 Hash.Multihash Resolve.Op Parser.Accept Parser.Exact.
+Local Close Scope Z_scope.
+
+(* validateMultihash accepts exactly: length <= MaxOperationHashLength (inclusive) and allowed algorithm *)
+Theorem C10_validate_multihash_iff :
+  forall (p : pproto) (mh : bytes),
+         validate_multihash p mh = true <->
+         (blen mh <= pp_max_hash_len p)%Z /\ is_computed_using mh (pp_hash_algs p) = true.
+Proof. exact validate_multihash_iff. Qed.
+Print Assumptions C10_validate_multihash_iff.
+
+(* ParseOperation accepts exactly: length <= MaxOperationSize (inclusive) and the size-independent rest accepts *)
+Theorem C10_size_gate_iff :
+  forall (p : pproto) (b t : bool) (v : req_view) (o : parsed),
+         parse_operation p b t v = Some o <->
+         (rv_len v <= pp_max_op_size p)%Z /\ parse_after_gate p b t v = Some o.
+Proof. exact size_gate_iff. Qed.
+Print Assumptions C10_size_gate_iff.
+
+(* validateNonce accepts exactly: empty, or base64url of exactly NonceSize bytes *)
+Theorem C10_validate_nonce_iff :
+  forall (p : pproto) (n : bytes),
+         validate_nonce p n = true <->
+         n = [] \/ (exists b : bytes, b64_decode n = Some b /\ blen b = pp_nonce_size p).
+Proof. exact validate_nonce_iff. Qed.
+Print Assumptions C10_validate_nonce_iff.
+
+(* ValidateDelta accepts exactly: canonical size <= MaxDeltaSize (inclusive) and the size-independent rest accepts *)
+Theorem C10_validate_delta_iff :
+  forall (p : pproto) (d : delta_view),
+         validate_delta p d = true <->
+         (blen (dv_canonical d) <= pp_max_delta_size p)%Z /\ validate_delta_nosize p d = true.
+Proof. exact validate_delta_iff. Qed.
+Print Assumptions C10_validate_delta_iff.
+
+(* the numeric parameters influence parse_operation only through the verdicts of the guards evaluated for this type and mode *)
+Theorem C10_guards_determine_result :
+  forall (p q : pproto) (v : req_view) (b t : bool),
+         agree b p q v -> parse_operation p b t v = parse_operation q b t v.
+Proof. exact agree_parse_operation. Qed.
+Print Assumptions C10_guards_determine_result.
+
+(* protocols differing only in MaxOperationSize with the same size verdict give the same parse result *)
+Theorem C10_max_op_size_independence :
+  forall (p q : pproto) (b t : bool) (v : req_view),
+         differ_only_op_size p q ->
+         op_size_guard p v = op_size_guard q v -> parse_operation p b t v = parse_operation q b t v.
+Proof. exact max_op_size_independence. Qed.
+Print Assumptions C10_max_op_size_independence.
+
+(* same for MaxOperationHashLength (verdict on the checked hash fields) *)
+Theorem C10_max_hash_len_independence :
+  forall (p q : pproto) (b t : bool) (v : req_view),
+         differ_only_hash_len p q ->
+         Forall (fun h : bytes => hash_len_guard p h = hash_len_guard q h) (checked_hash_fields b v) ->
+         parse_operation p b t v = parse_operation q b t v.
+Proof. exact max_hash_len_independence. Qed.
+Print Assumptions C10_max_hash_len_independence.
+
+(* same for MaxDeltaSize; irrelevant in batch mode and for deactivate *)
+Theorem C10_max_delta_size_independence :
+  forall (p q : pproto) (b t : bool) (v : req_view),
+         differ_only_delta_size p q ->
+         (delta_size_checked b v = true -> delta_size_guard p v = delta_size_guard q v) ->
+         parse_operation p b t v = parse_operation q b t v.
+Proof. exact max_delta_size_independence. Qed.
+Print Assumptions C10_max_delta_size_independence.
+
+(* same for NonceSize; irrelevant for create *)
+Theorem C10_nonce_size_independence :
+  forall (p q : pproto) (b t : bool) (v : req_view),
+         differ_only_nonce_size p q ->
+         (nonce_checked v = true -> nonce_guard p v = nonce_guard q v) ->
+         parse_operation p b t v = parse_operation q b t v.
+Proof. exact nonce_size_independence. Qed.
+Print Assumptions C10_nonce_size_independence.
+
+(* MaxOperationTimeDelta is not read by parse_operation *)
+Theorem C10_time_delta_independence :
+  forall (p q : pproto) (b t : bool) (v : req_view),
+         same_algs p q ->
+         pp_max_op_size p = pp_max_op_size q ->
+         pp_max_hash_len p = pp_max_hash_len q ->
+         pp_max_delta_size p = pp_max_delta_size q ->
+         pp_nonce_size p = pp_nonce_size q -> parse_operation p b t v = parse_operation q b t v.
+Proof. exact time_delta_independence. Qed.
+Print Assumptions C10_time_delta_independence.
+
+(* a request accepted under some limits is accepted with the same result when any of the three size limits grows *)
+Theorem C10_limits_monotone :
+  forall (p q : pproto) (b t : bool) (v : req_view) (o : parsed),
+         more_permissive p q -> parse_operation p b t v = Some o -> parse_operation q b t v = Some o.
+Proof. exact parse_operation_mono. Qed.
+Print Assumptions C10_limits_monotone.
+
+(* accepted under some MaxOperationSize => accepted under L iff length <= L *)
+Theorem C10_max_op_size_threshold :
+  forall (p q : pproto) (b t : bool) (v : req_view) (o : parsed),
+         differ_only_op_size p q ->
+         parse_operation p b t v = Some o ->
+         parse_operation q b t v = (if op_size_guard q v then None else Some o).
+Proof. exact max_op_size_threshold. Qed.
+Print Assumptions C10_max_op_size_threshold.
+
+(* accepted under some MaxOperationHashLength => accepted under L iff every checked hash string has length <= L *)
+Theorem C10_max_hash_len_threshold :
+  forall (p q : pproto) (b t : bool) (v : req_view) (o : parsed),
+         differ_only_hash_len p q ->
+         parse_operation p b t v = Some o ->
+         parse_operation q b t v =
+         (if existsb (hash_len_guard q) (checked_hash_fields b v) then None else Some o).
+Proof. exact max_hash_len_threshold. Qed.
+Print Assumptions C10_max_hash_len_threshold.
+
+(* accepted under some MaxDeltaSize => accepted under L iff the delta is not validated by the parser or its canonical size <= L *)
+Theorem C10_max_delta_size_threshold :
+  forall (p q : pproto) (b t : bool) (v : req_view) (o : parsed),
+         differ_only_delta_size p q ->
+         parse_operation p b t v = Some o ->
+         parse_operation q b t v =
+         (if delta_size_checked b v && delta_size_guard q v then None else Some o).
+Proof. exact max_delta_size_threshold. Qed.
+Print Assumptions C10_max_delta_size_threshold.
+
+(* accepted under some NonceSize => accepted under N iff the nonce is not checked or valid for N *)
+Theorem C10_nonce_size_threshold :
+  forall (p q : pproto) (b t : bool) (v : req_view) (o : parsed),
+         differ_only_nonce_size p q ->
+         parse_operation p b t v = Some o ->
+         parse_operation q b t v =
+         (if nonce_checked v && negb (nonce_guard q v) then None else Some o).
+Proof. exact nonce_size_threshold. Qed.
+Print Assumptions C10_nonce_size_threshold.
+
+(* a non-empty nonce valid for one NonceSize is invalid for every other *)
+Theorem C10_nonce_size_exact :
+  forall (p q : pproto) (n : list Byte.byte),
+         n <> [] ->
+         validate_nonce p n = true ->
+         pp_nonce_size q <> pp_nonce_size p -> validate_nonce q n = false.
+Proof. exact nonce_size_exact. Qed.
+Print Assumptions C10_nonce_size_exact.
+
+(* acceptance implies every guard evaluated for the type and mode passed (hash fields, delta, nonce) *)
+Theorem C10_accepted_checks_passed :
+  forall (p : pproto) (b t : bool) (v : req_view) (o : parsed),
+         parse_operation p b t v = Some o ->
+         Forall (fun h : bytes => validate_multihash p h = true) (checked_hash_fields b v) /\
+         (delta_size_checked b v = true -> validate_delta p (rv_delta v) = true) /\
+         (nonce_checked v = true -> nonce_guard p v = true).
+Proof. exact accepted_checks_passed. Qed.
+Print Assumptions C10_accepted_checks_passed.
